@@ -326,6 +326,7 @@ def t_window_var_to_callee(k):
     that WRITES through a window expression over that window variable (const-qualification of the
     argument / window struct); first- and second-level windows"""
     second = k % 2 == 1
+    by_name = (k // 2) % 2 == 1
     wr = {
         "name": "fill2",
         "args": [_arg("dst", "window", dims=["2"], written=True), _arg("src", "window", dims=["2"], written=False)],
@@ -333,7 +334,10 @@ def t_window_var_to_callee(k):
         "body": [["for", "i", "0", "2", [["assign", "dst", ["i"], "src[i] + 1.0"]], "seq"]],
     }
     body = [["window", "w", "x", [["iv", "2", "6"]]]]
-    if second:
+    if by_name:
+        # the alias itself (by name) is handed to the writing callee
+        body += [["window", "r", "w" if second else "x", [["iv", "1", "3"]]], ["call", "fill2", ["r", "y[0:2]"]]]
+    elif second:
         body += [["window", "r", "w", [["iv", "1", "4"]]], ["call", "fill2", ["r[0:2]", "y[0:2]"]]]
     else:
         body += [["call", "fill2", ["w[1:3]", "y[0:2]"]]]
@@ -362,7 +366,25 @@ def t_last_use_in_else(k):
     return {"prec": "f32", "cfg": False, "callees": [], "main": main}
 
 
-TEMPLATES = [t_window_on_alloc, t_config_fields, t_control_divmod, t_window_of_alloc, t_else_then_more, t_dependent_alloc, t_rmw_prefix, t_triangular_alloc, t_reduce_beyond, t_config_chain, t_maybe_zero_bound, t_masked_callee, t_config_scalar, t_same_name_inline, t_externs, t_nested_window_point, t_alloc_before_if_else, t_window_var_to_callee, t_last_use_in_else]
+def t_name_collision(k):
+    """a variable literally called a_1 next to two distinct variables called a (an outer one and a
+    shadowing one in a loop / a callee local brought in by inline), in both declaration orders"""
+    order = k % 2
+    decl_a = [["alloc", "a", "f32", ["4"], "DRAM"], ["for", "i", "0", "4", [["assign", "a", ["i"], "x[i]"]], "seq"]]
+    decl_a1 = [["alloc", "a_1", "f32", ["4"], "DRAM"], ["for", "i", "0", "4", [["assign", "a_1", ["i"], "x[i] + 1.0"]], "seq"]]
+    sub = {
+        "name": "addt",
+        "args": [_arg("dst", "window", dims=["4"], written=True), _arg("src", "window", dims=["4"], written=False)],
+        "preds": [],
+        "body": [["alloc", "a", "f32", [], "DRAM"], ["assign", "a", [], "2.0"], ["for", "i", "0", "4", [["reduce", "dst", ["i"], "src[i] * a"]], "seq"]],
+    }
+    inner = ["for", "i", "0", "4", [["alloc", "a", "f32", [], "DRAM"], ["assign", "a", [], "x[i] * 2.0"], ["assign", "y", ["i"], "a + a_1[i]"]], "seq"]
+    body = (decl_a + decl_a1 if order == 0 else decl_a1 + decl_a) + [inner, ["call", "addt", ["y[0:4]", "a[0:4]"]], ["reduce", "y", ["0"], "a[0] + a_1[1]"]]
+    main = {"name": "foo", "args": [_arg("x", "tensor", dims=["4"]), _arg("y", "tensor", dims=["4"])], "preds": [], "body": body}
+    return {"prec": "f32", "cfg": False, "callees": [sub], "main": main}
+
+
+TEMPLATES = [t_window_on_alloc, t_config_fields, t_control_divmod, t_window_of_alloc, t_else_then_more, t_dependent_alloc, t_rmw_prefix, t_triangular_alloc, t_reduce_beyond, t_config_chain, t_maybe_zero_bound, t_masked_callee, t_config_scalar, t_same_name_inline, t_externs, t_nested_window_point, t_alloc_before_if_else, t_window_var_to_callee, t_last_use_in_else, t_name_collision]
 
 
 def templates():
